@@ -33,7 +33,7 @@ var Base = []string{
 	"SELECT a FROM t LEFT JOIN u ON t.a = u.a WHERE u.b LIKE 'x%'",
 	"SELECT DISTINCT a FROM t ORDER BY a",
 	"SELECT 1",
-	// statements whose first word is not one the recovery loop resynchronises on
+	// the statements the recovery loop did not resynchronise on at the pinned commit
 	"SHOW TABLES",
 	"DESCRIBE t",
 	"SHOW COLUMNS FROM t",
@@ -43,7 +43,7 @@ var Base = []string{
 
 var startKeywords = map[string]bool{"SELECT": true, "INSERT": true, "UPDATE": true, "DELETE": true, "CREATE": true, "ALTER": true,
 	"DROP": true, "WITH": true, "MERGE": true, "REFRESH": true, "TRUNCATE": true, "GRANT": true, "REVOKE": true, "SET": true,
-	"BEGIN": true, "COMMIT": true, "ROLLBACK": true}
+	"BEGIN": true, "COMMIT": true, "ROLLBACK": true, "SHOW": true, "DESCRIBE": true, "EXPLAIN": true, "REPLACE": true}
 
 // Stmt is one concrete segment.
 type Stmt struct {
